@@ -81,7 +81,9 @@ func c02History(c *vc.Ctx, idx int) {
 	defer ch.Close()
 	bm := newBridgeModel(c.Seed, w.BtcKey)
 	var opsLog []string
-	logf := func(f string, a ...any) { opsLog = append(opsLog, fmt.Sprintf("h=%d ", ch.Height+1)+fmt.Sprintf(f, a...)) }
+	logf := func(f string, a ...any) {
+		opsLog = append(opsLog, fmt.Sprintf("h=%d ", ch.Height+1)+fmt.Sprintf(f, a...))
+	}
 	viol := func(sig, detail string) {
 		c.Violation(sig, fmt.Sprintf("height %d: %s", ch.Height, detail), map[string]any{"history": idx, "ops": lastN(opsLog, 60)})
 	}
